@@ -30,7 +30,11 @@ CONSTANTS P,            \* number of parts (0 = single request transfer)
           RQ,           \* max_request_queue_size
           MaxFaults, UserMayCancel,
           Kind,         \* "upload" | "copy" | "delete"  (delete: P = 0)
-          NeedHead      \* copy only: the size is not provided, HeadObject of the source first
+          NeedHead,     \* copy only: the size is not provided, HeadObject of the source first
+          Src,          \* upload only: "path" (parts read the file while they are sent) | "stream"
+                        \*   (a file object: every part is read into memory by the submission thread
+                        \*   and its task is throttled by the in-memory-upload tag semaphore)
+          UW            \* max_in_memory_upload_chunks
 
 Workers == {"request-w" \o ToString(i) : i \in 0..(R - 1)}
 Create == 100
@@ -57,10 +61,10 @@ ClassOf(k) == IF P = 0 THEN (IF Kind = "delete" THEN "DeleteObjectTask"
               ELSE IF Kind = "copy" THEN "CopyPartTask" ELSE "UploadPartTask"
 Size == IF P = 0 THEN 1 ELSE P
 MetaC == [ cfg |-> [R |-> R, S |-> 1, RQ |-> RQ, SQ |-> 1000, IOQ |-> 1000, io_chunk |-> 1,
-                    attempts |-> 3, up_chunks |-> 10, down_chunks |-> 10, chunk |-> 1, minp |-> 1, maxp |-> 1000000, maxn |-> 10000,
+                    attempts |-> 3, up_chunks |-> UW, down_chunks |-> 10, chunk |-> 1, minp |-> 1, maxp |-> 1000000, maxn |-> 10000,
                     threshold |-> IF P = 0 THEN 2 ELSE 1],
            xs |-> << [kind |-> Kind, size |-> Size, dstk |-> "none",
-                      srck |-> IF Kind = "upload" THEN "path" ELSE "none",
+                      srck |-> IF Kind = "upload" THEN (IF Src = "stream" THEN "nonseekable" ELSE "path") ELSE "none",
                       hasOld |-> FALSE, nsubs |-> 1, provide |-> (Kind = "copy" /\ ~NeedHead), faultFree |-> (MaxFaults = 0),
                       override |-> FALSE, shortsrc |-> FALSE] >> ]
 
@@ -72,6 +76,7 @@ VARIABLES
     task,                      \* [k -> [st, res]] st: unsub|queued|running|ended|done
     rq,                        \* request executor FIFO
     rsem,                      \* free slots of the request queue semaphore
+    usem,                      \* free slots of the in-memory-upload tag semaphore (stream uploads)
     wpc, wcur, wchk, wtag,     \* per request worker: pc, task, clock of its done-check, fault tag
     spc, snext,                \* submission thread: pc, index into SubOrder
     upc, cpc,                  \* user / canceller program counters
@@ -79,11 +84,12 @@ VARIABLES
     faults, seq, clk, uidKnown,
     o                          \* observable state (Obs.tla)
 
-vars == <<status, exc, event, cleanup, cllock, cblock, cbrun, task, rq, rsem, wpc, wcur, wchk, wtag,
+vars == <<status, exc, event, cleanup, cllock, cblock, cbrun, task, rq, rsem, usem, wpc, wcur, wchk, wtag,
           spc, snext, upc, cpc, ann, faults, seq, clk, uidKnown, o>>
 coord == <<status, exc>>
 locks == <<cllock, cblock, cbrun>>
-exec == <<task, rq, rsem>>
+exec == <<task, rq, rsem, usem>>
+Tagged(k) == Kind = "upload" /\ Src = "stream" /\ k \in 1..P      \* its slot comes from the tag semaphore
 wk == <<wpc, wcur, wchk, wtag>>
 sb == <<spc, snext>>
 us == <<upc, cpc>>
@@ -96,7 +102,7 @@ Init ==
     /\ status = "not-started" /\ exc = "none" /\ event = FALSE /\ cleanup = "none"
     /\ cllock = "" /\ cblock = "" /\ cbrun = FALSE
     /\ task = [k \in Tasks |-> [st |-> "unsub", res |-> "none"]]
-    /\ rq = <<>> /\ rsem = RQ
+    /\ rq = <<>> /\ rsem = RQ /\ usem = UW
     /\ wpc = [w \in Workers |-> "idle"] /\ wcur = [w \in Workers |-> 0]
     /\ wchk = [w \in Workers |-> -1]
     /\ wtag = [w \in Workers |-> ""]
@@ -338,22 +344,31 @@ SubHeadEnd(oc) ==
 \* [ExecSubmit request] BoundedExecutor.submit: acquire a queue slot (blocks
 \* while none), enqueue
 SubSubmit ==
-    /\ spc = "submit" /\ snext <= Len(SubOrder) /\ rsem > 0
-    /\ rsem' = rsem - 1
+    /\ spc = "submit" /\ snext <= Len(SubOrder)
+    /\ IF Tagged(SubOrder[snext]) THEN usem > 0 /\ usem' = usem - 1 /\ UNCHANGED rsem
+       ELSE rsem > 0 /\ rsem' = rsem - 1 /\ UNCHANGED usem
     /\ rq' = Append(rq, SubOrder[snext])
     /\ task' = [task EXCEPT ![SubOrder[snext]].st = "queued"]
     /\ snext' = snext + 1
     /\ Emit([e |-> "ExecSubmit", stage |-> "request", inflight |-> InFlight + 1, user |-> FALSE])
     /\ UNCHANGED <<coord, event, cleanup, locks, wk, spc, us, ann, faults, seq, uidKnown>>
+\* a stream source is read by the submission thread (the threshold bytes, then
+\* every part before its task is submitted): the read raises   [FaultInjected src_read]
+SubSrcFault ==
+    /\ spc = "submit" /\ Kind = "upload" /\ Src = "stream" /\ P > 0
+    /\ snext <= Len(SubOrder) /\ faults < MaxFaults      \* (a stream is read once more after its last part: EOF)
+    /\ faults' = faults + 1
+    /\ Emit(EvFault("SRC")) /\ spc' = "failsrc"
+    /\ UNCHANGED <<coord, event, cleanup, locks, exec, wk, snext, us, ann, seq, uidKnown>>
 SubEnd ==
     /\ spc = "submit" /\ snext > Len(SubOrder)
     /\ spc' = "tend" /\ Quiet
     /\ UNCHANGED <<coord, event, cleanup, locks, exec, wk, snext, us, ann, faults, seq, uidKnown>>
 \* [SetExc] exception path of _main: set_exception ...
 SubFail ==
-    /\ spc \in {"fail", "failcbq", "failhead"}
+    /\ spc \in {"fail", "failcbq", "failhead", "failsrc"}
     /\ SetException(IF spc = "failcbq" THEN "CBQ" ELSE IF spc = "failhead" THEN "F" \o ToString(seq)
-                    ELSE "RuntimeError")
+                    ELSE IF spc = "failsrc" THEN "SRC" ELSE "RuntimeError")
     /\ spc' = "failwait" /\ Quiet
     /\ UNCHANGED <<event, cleanup, locks, exec, wk, snext, us, ann, faults, seq, uidKnown>>
 \* ... wait for every submitted future, then announce done
@@ -381,7 +396,7 @@ WTake(w) ==
     /\ task' = [task EXCEPT ![Head(rq)].st = "running"]
     /\ wpc' = [wpc EXCEPT ![w] = "deps"]
     /\ Quiet
-    /\ UNCHANGED <<coord, event, cleanup, locks, rsem, wchk, wtag, sb, us, ann, faults, seq, uidKnown>>
+    /\ UNCHANGED <<coord, event, cleanup, locks, rsem, usem, wchk, wtag, sb, us, ann, faults, seq, uidKnown>>
 \* _wait_on_dependent_futures, then test done()
 WDeps(w) ==
     /\ wpc[w] = "deps"
@@ -425,6 +440,14 @@ WInterrupt(w) ==
     /\ wtag' = [wtag EXCEPT ![w] = exc]
     /\ Quiet
     /\ UNCHANGED <<coord, event, cleanup, locks, exec, wcur, wchk, sb, us, ann, faults, seq, uidKnown>>
+\* [FaultInjected src_read, S3End body-error] a file source fails while a part is being sent
+WBodyFault(w) ==
+    /\ wpc[w] = "inflight" /\ HasBody(wcur[w]) /\ Src = "path" /\ faults < MaxFaults
+    /\ faults' = faults + 1
+    /\ Emit2(EvFault("SRC"), EvS3End(OpOf(wcur[w]), "body-error"))
+    /\ wpc' = [wpc EXCEPT ![w] = "exc"]
+    /\ wtag' = [wtag EXCEPT ![w] = "SRC"]
+    /\ UNCHANGED <<coord, event, cleanup, locks, exec, wcur, wchk, sb, us, ann, seq, uidKnown>>
 \* [S3End body-error]
 WMainInterrupted(w) ==
     /\ wpc[w] = "inflight" /\ exc # "none" /\ HasBody(wcur[w])
@@ -444,14 +467,14 @@ WOk(w) ==
     /\ cleanup' = IF wcur[w] = Create /\ P > 0 /\ cleanup = "none" THEN "registered" ELSE cleanup
     /\ task' = [task EXCEPT ![wcur[w]].res = "ok"]
     /\ wpc' = [wpc EXCEPT ![w] = "fin"] /\ Quiet
-    /\ UNCHANGED <<event, locks, rq, rsem, wcur, wchk, wtag, sb, us, ann, faults, seq, uidKnown>>
+    /\ UNCHANGED <<event, locks, rq, rsem, usem, wcur, wchk, wtag, sb, us, ann, faults, seq, uidKnown>>
 \* [SetExc]
 WExc(w) ==
     /\ wpc[w] = "exc"
     /\ SetException(wtag[w])
     /\ task' = [task EXCEPT ![wcur[w]].res = "exc"]
     /\ wpc' = [wpc EXCEPT ![w] = "fin"] /\ Quiet
-    /\ UNCHANGED <<event, cleanup, locks, rq, rsem, wcur, wchk, wtag, sb, us, ann, faults, seq, uidKnown>>
+    /\ UNCHANGED <<event, cleanup, locks, rq, rsem, usem, wcur, wchk, wtag, sb, us, ann, faults, seq, uidKnown>>
 \* finally: the final task announces done
 WFin(w) ==
     /\ wpc[w] = "fin"
@@ -469,17 +492,18 @@ WTaskEnd(w) ==
     /\ wpc[w] = "tend"
     /\ task' = [task EXCEPT ![wcur[w]].st = "ended", ![wcur[w]].res = IF @ = "none" THEN "skipped" ELSE @]
     /\ wpc' = [wpc EXCEPT ![w] = "finish"] /\ Quiet
-    /\ UNCHANGED <<coord, event, cleanup, locks, rq, rsem, wcur, wchk, wtag, sb, us, ann, faults, seq, uidKnown>>
+    /\ UNCHANGED <<coord, event, cleanup, locks, rq, rsem, usem, wcur, wchk, wtag, sb, us, ann, faults, seq, uidKnown>>
 \* the executor future completes (dependents wake up) ...
 WFinish(w) ==
     /\ wpc[w] = "finish"
     /\ task' = [task EXCEPT ![wcur[w]].st = "done"]
     /\ wpc' = [wpc EXCEPT ![w] = "release"] /\ Quiet
-    /\ UNCHANGED <<coord, event, cleanup, locks, rq, rsem, wcur, wchk, wtag, sb, us, ann, faults, seq, uidKnown>>
+    /\ UNCHANGED <<coord, event, cleanup, locks, rq, rsem, usem, wcur, wchk, wtag, sb, us, ann, faults, seq, uidKnown>>
 \* ... and its done callback releases the queue slot
 WRelease(w) ==
     /\ wpc[w] = "release"
-    /\ rsem' = rsem + 1
+    /\ IF Tagged(wcur[w]) THEN usem' = usem + 1 /\ UNCHANGED rsem
+       ELSE rsem' = rsem + 1 /\ UNCHANGED usem
     /\ wpc' = [wpc EXCEPT ![w] = "idle"] /\ Quiet
     /\ UNCHANGED <<coord, event, cleanup, locks, task, rq, wcur, wchk, wtag, sb, us, ann, faults, seq, uidKnown>>
 
@@ -492,11 +516,11 @@ CancelNext == UCancelCall \/ CancelBegin \/ CancelLin \/ UCancelRet
 SubNext ==
     \/ SubTake \/ SubCheck \/ SubQueued \/ SubOnQueuedBegin \/ SubOnQueuedEnd(TRUE) \/ SubOnQueuedEnd(FALSE)
     \/ SubRunning \/ SubHeadBegin \/ SubHeadEnd("ok") \/ SubHeadEnd("fault")
-    \/ SubSubmit \/ SubEnd \/ SubFail \/ SubFailWait \/ SubFailDone \/ SubTaskEnd
+    \/ SubSubmit \/ SubSrcFault \/ SubEnd \/ SubFail \/ SubFailWait \/ SubFailDone \/ SubTaskEnd
 WNext(w) ==
     \/ WTake(w) \/ WDeps(w) \/ WMainBegin(w)
     \/ WMainEnd(w, "ok") \/ WMainEnd(w, "fault") \/ WMainEnd(w, "fault-after")
-    \/ WInterrupt(w) \/ WMainInterrupted(w)
+    \/ WInterrupt(w) \/ WMainInterrupted(w) \/ WBodyFault(w)
     \/ WOk(w) \/ WExc(w) \/ WFin(w) \/ WAnnounced(w) \/ WTaskEnd(w) \/ WFinish(w) \/ WRelease(w)
 Next ==
     \/ UserNext \/ CancelNext \/ SubNext
@@ -523,9 +547,13 @@ FailingClauses == {c \in PipelineClauses : ~Holds(c, o)}
 ClausesOK == FailingClauses = {}
 
 \* the request-queue semaphore is conserved
+Holding(k) == task[k].st \in {"queued", "running", "ended"}
+                 \/ \E w \in Workers : wpc[w] = "release" /\ wcur[w] = k
 C12_QueueSlotsConserved ==
-    rsem = RQ - Cardinality({k \in Tasks : task[k].st \in {"queued", "running", "ended"}})
-                - Cardinality({w \in Workers : wpc[w] = "release"})
+    /\ rsem = RQ - Cardinality({k \in Tasks : ~Tagged(k) /\ Holding(k)})
+    /\ usem = UW - Cardinality({k \in Tasks : Tagged(k) /\ Holding(k)})
+\* at most UW part bodies of a stream upload are held in memory
+C11_M_UploadWindow == Cardinality({k \in Tasks : Tagged(k) /\ Holding(k)}) <= UW
 \* the abort cleanup is never registered after the cleanups ran (orphaned upload)
 C05_CleanupRegisteredBeforeRun == ~(cleanup = "ran" /\ \E w \in Workers : wpc[w] = "ok" /\ wcur[w] = Create)
 \* the two callback locks are held by an announcing thread only
